@@ -1,0 +1,25 @@
+//go:build verif
+
+// Verification hooks (read-only): compiled only with -tags verif.
+
+package framing
+
+import "fmt"
+
+// VerifConstants returns the package constants as the compiler evaluated them.
+func VerifConstants() map[string]string {
+	m := map[string]string{}
+	put := func(k string, v interface{}) { m[k] = fmt.Sprint(v) }
+	put("MaximumSegmentLength", MaximumSegmentLength)
+	put("FrameOverhead", FrameOverhead)
+	put("MaximumFramePayloadLength", MaximumFramePayloadLength)
+	put("KeyLength", KeyLength)
+	put("maxFrameLength", maxFrameLength)
+	put("minFrameLength", minFrameLength)
+	put("keyLength", keyLength)
+	put("noncePrefixLength", noncePrefixLength)
+	put("nonceCounterLength", nonceCounterLength)
+	put("nonceLength", nonceLength)
+	put("lengthLength", lengthLength)
+	return m
+}
